@@ -269,6 +269,9 @@ type mDep struct {
 	Req  string `json:"req"`
 	Dev  bool   `json:"dev,omitempty"`
 	Mgmt bool   `json:"mgmt,omitempty"` // Maven: entry in dependencyManagement only
+	// Maven: a further declaration of the package inside a profile / a pluginManagement plugin
+	Profile bool `json:"profile,omitempty"`
+	Plugin  bool `json:"plugin,omitempty"`
 }
 
 type manifestSpec struct {
@@ -349,14 +352,19 @@ func (m manifestSpec) render(sys resolve.System) string {
 		}
 		return s + "    </dependency>\n"
 	}
-	var mg []mDep
+	var mg, prof, plug []mDep
 	sb.WriteString("  <dependencies>\n")
 	for _, d := range m.Deps {
-		if d.Mgmt {
+		switch {
+		case d.Mgmt:
 			mg = append(mg, d)
-			continue
+		case d.Profile:
+			prof = append(prof, d)
+		case d.Plugin:
+			plug = append(plug, d)
+		default:
+			sb.WriteString(dep(d))
 		}
-		sb.WriteString(dep(d))
 	}
 	sb.WriteString("  </dependencies>\n")
 	if len(mg) > 0 {
@@ -365,6 +373,20 @@ func (m manifestSpec) render(sys resolve.System) string {
 			sb.WriteString(dep(d))
 		}
 		sb.WriteString("  </dependencies>\n  </dependencyManagement>\n")
+	}
+	if len(prof) > 0 {
+		sb.WriteString("  <profiles>\n  <profile>\n  <id>legacy</id>\n  <dependencies>\n")
+		for _, d := range prof {
+			sb.WriteString(dep(d))
+		}
+		sb.WriteString("  </dependencies>\n  </profile>\n  </profiles>\n")
+	}
+	if len(plug) > 0 {
+		sb.WriteString("  <build>\n  <pluginManagement>\n  <plugins>\n  <plugin>\n    <groupId>org.plug</groupId>\n    <artifactId>plug</artifactId>\n    <version>1.0</version>\n  <dependencies>\n")
+		for _, d := range plug {
+			sb.WriteString(dep(d))
+		}
+		sb.WriteString("  </dependencies>\n  </plugin>\n  </plugins>\n  </pluginManagement>\n  </build>\n")
 	}
 	sb.WriteString("</project>\n")
 	return sb.String()
